@@ -366,55 +366,8 @@ def shared_no_mutate(rep, mod):
 
 
 def class_protocol(rep, mod):
-    f = find_def(mod, '_classImplements_ordered')
-    cfg = cfg_of(f)
-    st_decl = pred_of('spec.declared = tuple(new_declared)', 'exec')
-    st_bases = pred_of('spec.__bases__ = tuple(bases)', 'exec')
-    ok = cfg.must_pass_after(cfg.entry, st_decl) and cfg.must_pass_after(cfg.entry, st_bases)
-    bn = [n for n in cfg.nodes if n.ast is not None and st_bases(n)]
-    oklast = ok and all(cfg.dominated_by(n, st_decl) for n in bn) and all(
-        [m for m, l in n.succ] == [cfg.exit] for n in bn)
-    rep.check('R01.4', 'declarations._classImplements_ordered', oklast,
-              'declared is stored, and the __bases__ store (which recomputes '
-              'and notifies) is the last statement on every path',
-              construct='bases-last', node=f)
-    # bases = declared ++ implementedBy(c) for c in inherit.__bases__
-    g = [n for n in f.body if isinstance(n, ast.If)
-         and match('spec.inherit is not None', n.test) is not None]
-    okb = len(g) == 1
-    if okb:
-        lps = [n for n in g[0].body if isinstance(n, ast.For)]
-        okb = len(lps) == 1 and match('spec.inherit.__bases__', lps[0].iter) is not None \
-            and bool(find_all(lps[0], 'b = implementedBy(%s)' % lps[0].target.id, 'exec')) \
-            and bool(find_all(lps[0], 'bases.append(b)', 'exec')) and \
-            iter_polarity(lps[0].iter)[1] == 'fwd'
-        bd = resolve_local(f, ast.Name(id='bases', ctx=ast.Load()), depth=1)
-        okb = okb and match('new_declared', bd) is not None
-    rep.check('R01.4', 'declarations._classImplements_ordered', okb,
-              'bases = declared interfaces followed by the specifications of '
-              'the class\'s bases (in order) when inheritance applies',
-              construct='bases-value', node=f)
-    # new_declared = before ++ spec.declared ++ after, de-duplicated first-wins
-    lps = [n for n in f.body if isinstance(n, ast.For)]
-    okd = False
-    for lp in lps:
-        if match('(before, spec.declared, after)', lp.iter) is not None:
-            okd = bool(find_all(lp, 'new_declared.append($b)', 'exec')) and \
-                bool(find_all(lp, '$b not in seen'))
-    rep.check('R01.4', 'declarations._classImplements_ordered', okd,
-              'declared = before + previously declared + after without '
-              'duplicates', construct='declared-value', node=f)
-    # elision predicate
-    for var in ('before', 'after'):
-        d = [n.value for n in f.body if isinstance(n, ast.Assign)
-             and isinstance(n.targets[0], ast.Name) and n.targets[0].id == var]
-        ok = bool(d) and match(
-            '[$x for $x in %s if not spec.isOrExtends($x) or ($x is Interface and not spec.declared)]'
-            % var, d[0]) is not None
-        rep.check('R01.5', 'declarations._classImplements_ordered', ok,
-                  '%s: an interface is elided only when the class already '
-                  'implies it (spec.isOrExtends), with the documented root '
-                  'exception' % var, construct='elide:' + var, node=f)
+    from . import declsem
+    declsem.class_ordered(rep, mod, 'R01.4', 'R01.5')
     h = find_def(mod, 'Declaration._add_interfaces_to_cls')
     d = [n.value for n in walk_local(h) if isinstance(n, ast.Assign)
          and isinstance(n.targets[0], ast.Name) and n.targets[0].id == 'interfaces']
@@ -568,21 +521,8 @@ def run(rep):
     class_protocol(rep, mod)
     install(rep, mod)
     # R01.8: shared obligations
-    from . import C20 as c20
-    decl = find_def(mod, 'Declaration')
-    sub = methods_of(decl)['__sub__']
-    rets = [n for n in walk_local(sub) if isinstance(n, ast.Return)]
-    ok = False
-    detail = 'unexpected shape'
-    if len(rets) == 1:
-        env = match('Declaration(*$c)', rets[0].value)
-        comp = env['c'] if env else None
-        if isinstance(comp, (ast.ListComp, ast.GeneratorExp)) and len(comp.generators) == 1 \
-                and len(comp.generators[0].ifs) == 1 and \
-                isinstance(comp.generators[0].target, ast.Name):
-            ok, detail = c20.exists_filter(comp.generators[0].ifs[0],
-                                           comp.generators[0].target.id)
-    rep.check('R01.8', 'Declaration.__sub__', ok, detail, construct='sub', node=sub)
+    from . import declsem
+    declsem.decl_sub(rep, mod, 'R01.8')
     sup = find_def(mod, '_implementedBy_super')
     p = shared.params(sup)[0]
     owner = resolve_local(sup, ast.Name(id='implemented_by_self', ctx=ast.Load()))
